@@ -992,3 +992,462 @@ VARIANTS += [
  dict(name='lookup-result-object-by-pointer-unfiltered-capabilities', expect='flagged(routing/declared-capabilities)',
       edits=struct_shape(helper=sub(ptr_helper(), 'capabilities: pluginCapabilities}, nil', 'capabilities: metadata.Capabilities}, nil'))),
 ]
+
+# ---- third pass: results built in one literal at a single exit (held-out refactoring C02-2 of batch 3)
+def _fn(text, name):
+    i = text.index('\nfunc ' + name + '(') + 1
+    return text[i:text.index('\n}\n', i) + 3]
+
+SINGLE_EXIT = {
+ 'verifyIntegrity': r'''func verifyIntegrity(sigBlob []byte, envelopeMediaType string, outcome *notation.VerificationOutcome) (*signature.EnvelopeContent, *notation.ValidationResult) {
+	envContent, err := parseAndVerifyEnvelope(sigBlob, envelopeMediaType)
+	return envContent, &notation.ValidationResult{
+		Error:  err,
+		Type:   trustpolicy.TypeIntegrity,
+		Action: outcome.VerificationLevel.Enforcement[trustpolicy.TypeIntegrity],
+	}
+}
+
+func parseAndVerifyEnvelope(sigBlob []byte, envelopeMediaType string) (*signature.EnvelopeContent, error) {
+	// parse the signature
+	sigEnv, err := signature.ParseEnvelope(envelopeMediaType, sigBlob)
+	if err != nil {
+		return nil, fmt.Errorf("unable to parse the digital signature, error : %s", err)
+	}
+
+	// verify integrity
+	envContent, err := sigEnv.Verify()
+	if err != nil {
+		switch err.(type) {
+		case *signature.SignatureEnvelopeNotFoundError, *signature.InvalidSignatureError, *signature.SignatureIntegrityError:
+			return nil, err
+		default:
+			// unexpected error
+			return nil, notation.ErrorVerificationInconclusive{Msg: err.Error()}
+		}
+	}
+
+	if err := envelope.ValidatePayloadContentType(&envContent.Payload); err != nil {
+		return nil, err
+	}
+	return envContent, nil
+}
+''',
+ 'verifyAuthenticity': r'''func verifyAuthenticity(trustCerts []*x509.Certificate, trustStoreErr error, outcome *notation.VerificationOutcome) *notation.ValidationResult {
+	err := trustStoreErr
+	if err == nil {
+		err = checkAuthenticity(trustCerts, outcome.EnvelopeContent)
+	}
+	return &notation.ValidationResult{
+		Error:  err,
+		Type:   trustpolicy.TypeAuthenticity,
+		Action: outcome.VerificationLevel.Enforcement[trustpolicy.TypeAuthenticity],
+	}
+}
+
+func checkAuthenticity(trustCerts []*x509.Certificate, envContent *signature.EnvelopeContent) error {
+	if len(trustCerts) < 1 {
+		return notation.ErrorVerificationInconclusive{Msg: "no trusted certificates are found to verify authenticity"}
+	}
+	_, err := signature.VerifyAuthenticity(&envContent.SignerInfo, trustCerts)
+	if err == nil {
+		return nil
+	}
+	if _, ok := err.(*signature.SignatureAuthenticityError); ok {
+		return err
+	}
+	return notation.ErrorVerificationInconclusive{Msg: "authenticity verification failed with error : " + err.Error()}
+}
+''',
+ 'verifyExpiry': r'''func verifyExpiry(outcome *notation.VerificationOutcome) *notation.ValidationResult {
+	var err error
+	if expiry := outcome.EnvelopeContent.SignerInfo.SignedAttributes.Expiry; !expiry.IsZero() && !time.Now().Before(expiry) {
+		err = fmt.Errorf("digital signature has expired on %q", expiry.Format(time.RFC1123Z))
+	}
+	return &notation.ValidationResult{
+		Error:  err,
+		Type:   trustpolicy.TypeExpiry,
+		Action: outcome.VerificationLevel.Enforcement[trustpolicy.TypeExpiry],
+	}
+}
+''',
+ 'verifyAuthenticTimestamp': r'''func verifyAuthenticTimestamp(ctx context.Context, policyName string, trustStores []string, signatureVerification trustpolicy.SignatureVerification, x509TrustStore truststore.X509TrustStore, r revocation.Validator, outcome *notation.VerificationOutcome) *notation.ValidationResult {
+	logger := log.GetLogger(ctx)
+
+	var err error
+	signerInfo := outcome.EnvelopeContent.SignerInfo
+	if signerInfo.SignedAttributes.SigningScheme == signature.SigningSchemeX509 {
+		// under signing scheme notary.x509
+		logger.Debug("Under signing scheme notary.x509...")
+		err = verifyTimestamp(ctx, policyName, trustStores, signatureVerification, x509TrustStore, r, outcome)
+	} else {
+		// under signing scheme notary.x509.signingAuthority
+		logger.Debug("Under signing scheme notary.x509.signingAuthority...")
+		err = verifyCertsValidAt(signerInfo.CertificateChain, signerInfo.SignedAttributes.SigningTime)
+	}
+	return &notation.ValidationResult{
+		Error:  err,
+		Type:   trustpolicy.TypeAuthenticTimestamp,
+		Action: outcome.VerificationLevel.Enforcement[trustpolicy.TypeAuthenticTimestamp],
+	}
+}
+
+func verifyCertsValidAt(certChain []*x509.Certificate, authenticSigningTime time.Time) error {
+	for _, cert := range certChain {
+		if authenticSigningTime.Before(cert.NotBefore) || authenticSigningTime.After(cert.NotAfter) {
+			return fmt.Errorf("certificate %q was not valid when the digital signature was produced at %q", cert.Subject, authenticSigningTime.Format(time.RFC1123Z))
+		}
+	}
+	return nil
+}
+''',
+}
+OLD_AUTH_CALL = '''	var authenticityResult *notation.ValidationResult
+	if err != nil {
+		authenticityResult = &notation.ValidationResult{
+			Error:  err,
+			Type:   trustpolicy.TypeAuthenticity,
+			Action: outcome.VerificationLevel.Enforcement[trustpolicy.TypeAuthenticity],
+		}
+	} else {
+		// verify authenticity
+		authenticityResult = verifyAuthenticity(trustCerts, outcome)
+	}
+'''
+def single_exit_shape(names=('verifyIntegrity', 'verifyAuthenticity', 'verifyExpiry', 'verifyAuthenticTimestamp'), more=()):
+    edits = [(V, _fn(_SRC_V, n), SINGLE_EXIT[n]) for n in names]
+    if 'verifyAuthenticity' in names:
+        edits.append((V, OLD_AUTH_CALL, '\tauthenticityResult := verifyAuthenticity(trustCerts, err, outcome)\n'))
+    return edits + list(more)
+
+VARIANTS += [
+ dict(name='benign-results-built-at-single-exit', expect='silent', edits=single_exit_shape(),
+      why='each native validation computes a plain error (inline or in a helper that knows nothing of levels) and builds its result in ONE literal at its single exit: the four appends of processSignature then print alike (third batch C02-2)'),
+ dict(name='benign-results-built-at-single-exit-three-of-four', expect='silent', edits=single_exit_shape(names=('verifyIntegrity', 'verifyExpiry', 'verifyAuthenticTimestamp'))),
+ dict(name='single-exit-results-expiry-gate-dropped', expect='flagged(gated/)',
+      edits=single_exit_shape(more=[(V, '\tif isCriticalFailure(expiryResult) {\n\t\treturn expiryResult.Error\n\t}\n', '')]),
+      why='same shape, the expiry result is appended and never gated: one of the four like-printed events fails'),
+ dict(name='single-exit-results-timestamp-gate-dropped', expect='flagged(gated/)',
+      edits=single_exit_shape(more=[(V, '\tif isCriticalFailure(authenticTimestampResult) {\n\t\treturn authenticTimestampResult.Error\n\t}\n', '')])),
+ dict(name='single-exit-result-takes-action-of-other-type', expect='flagged(pairing/)',
+      edits=single_exit_shape(more=[(V, '\t\tType:   trustpolicy.TypeExpiry,\n\t\tAction: outcome.VerificationLevel.Enforcement[trustpolicy.TypeExpiry],\n\t}\n}\n',
+                                        '\t\tType:   trustpolicy.TypeExpiry,\n\t\tAction: outcome.VerificationLevel.Enforcement[trustpolicy.TypeAuthenticity],\n\t}\n}\n')]),
+      why='same shape, the single literal of the expiry validation takes the action of another type'),
+]
+
+# ---- third pass: the rules on one override entry decided by a helper (held-out refactoring C09-1 of batch 3)
+OLD_OVERRIDE_RULES = '''		if validationType == TypeIntegrity {
+			return nil, fmt.Errorf("%q verification can not be overridden in custom signature verification", key)
+		} else if validationType != TypeRevocation && validationAction == ActionSkip {
+			return nil, fmt.Errorf("%q verification can not be skipped in custom signature verification", key)
+		}
+'''
+NEW_OVERRIDE_RULES = '''		if err := checkOverride(validationType, validationAction); err != nil {
+			return nil, err
+		}
+'''
+OVERRIDE_VALIDATOR = '''func checkOverride(validationType ValidationType, validationAction ValidationAction) error {
+	switch {
+	case validationType == TypeIntegrity:
+		return fmt.Errorf("%q verification can not be overridden in custom signature verification", validationType)
+	case validationType != TypeRevocation && validationAction == ActionSkip:
+		return fmt.Errorf("%q verification can not be skipped in custom signature verification", validationType)
+	}
+	return nil
+}
+
+'''
+T_ANCHOR = 'func getDocument('
+def validator_shape(helper=OVERRIDE_VALIDATOR, call=NEW_OVERRIDE_RULES):
+    return [(T, OLD_OVERRIDE_RULES, call), (T, T_ANCHOR, helper + T_ANCHOR)]
+
+OVERRIDE_PREDICATE = '''func skipAllowed(validationType ValidationType, validationAction ValidationAction) bool {
+	if validationAction == ActionSkip && validationType != TypeRevocation {
+		return false
+	}
+	return true
+}
+
+'''
+NEW_OVERRIDE_RULES_PRED = '''		if validationType == TypeIntegrity {
+			return nil, fmt.Errorf("%q verification can not be overridden in custom signature verification", key)
+		}
+		if !skipAllowed(validationType, validationAction) {
+			return nil, fmt.Errorf("%q verification can not be skipped in custom signature verification", key)
+		}
+'''
+_SRC_T = open('/repo/' + T).read()
+_a = _SRC_T.index('\tfor key, value := range signatureVerification.Override {\n')
+_b = _SRC_T.index('\treturn customVerificationLevel, nil\n')
+OLD_OVERRIDE_LOOP = _SRC_T[_a:_b]
+NEW_OVERRIDE_LOOP = '''	for validationType, validationAction := range signatureVerification.Override {
+		if err := validateOverride(validationType, validationAction); err != nil {
+			return nil, err
+		}
+		customVerificationLevel.Enforcement[validationType] = validationAction
+	}
+'''
+WHOLE_ENTRY_VALIDATOR = '''func validateOverride(validationType ValidationType, validationAction ValidationAction) error {
+	// the empty string never denotes a supported type or action
+	if validationType == "" || !slices.Contains(ValidationTypes, validationType) {
+		return fmt.Errorf("verification type %q in custom signature verification is not supported, supported values are %q", validationType, ValidationTypes)
+	}
+	if validationAction == "" || !slices.Contains(ValidationActions, validationAction) {
+		return fmt.Errorf("verification action %q in custom signature verification is not supported, supported values are %q", validationAction, ValidationActions)
+	}
+	switch {
+	case validationType == TypeIntegrity:
+		return fmt.Errorf("%q verification can not be overridden in custom signature verification", validationType)
+	case validationType != TypeRevocation && validationAction == ActionSkip:
+		return fmt.Errorf("%q verification can not be skipped in custom signature verification", validationType)
+	}
+	return nil
+}
+
+'''
+def whole_entry_shape(helper=WHOLE_ENTRY_VALIDATOR, loop=NEW_OVERRIDE_LOOP):
+    return [(T, OLD_OVERRIDE_LOOP, loop), (T, T_ANCHOR, helper + T_ANCHOR)]
+
+VARIANTS += [
+ dict(name='benign-override-rules-in-validator', expect='silent', edits=validator_shape(),
+      why='the integrity / skip-only-revocation rules moved into checkOverride(type, action) error; the store lies behind err == nil'),
+ dict(name='benign-override-rules-in-validator-other-parameter-order', expect='silent',
+      edits=validator_shape(helper=sub(OVERRIDE_VALIDATOR, '(validationType ValidationType, validationAction ValidationAction)', '(validationAction ValidationAction, validationType ValidationType)'),
+                            call=sub(NEW_OVERRIDE_RULES, '(validationType, validationAction)', '(validationAction, validationType)'))),
+ dict(name='benign-override-skip-rule-in-predicate', expect='silent', edits=validator_shape(helper=OVERRIDE_PREDICATE, call=NEW_OVERRIDE_RULES_PRED),
+      why='the skip rule asked of a predicate skipAllowed(type, action) bool written with statements'),
+ dict(name='benign-override-entry-validated-by-helper', expect='silent', edits=whole_entry_shape(),
+      why='the whole entry (membership in the supported types / actions by slices.Contains, integrity, skip) validated by validateOverride(key, value); key and value stored as they are (third batch C09-1)'),
+ dict(name='override-validator-allows-skip-for-expiry', expect='flagged(custom/skip-only-revocation)',
+      edits=validator_shape(helper=sub(OVERRIDE_VALIDATOR, 'case validationType != TypeRevocation && validationAction == ActionSkip:', 'case validationType != TypeRevocation && validationType != TypeExpiry && validationAction == ActionSkip:'))),
+ dict(name='override-validator-answer-dropped', expect='flagged(custom/)',
+      edits=validator_shape(call='\t\t_ = checkOverride(validationType, validationAction)\n')),
+ dict(name='override-validator-fed-fixed-type', expect='flagged(custom/skip-only-revocation)',
+      edits=validator_shape(call=sub(NEW_OVERRIDE_RULES, '(validationType, validationAction)', '(TypeRevocation, validationAction)')),
+      why='the validator is asked about the revocation type whatever the entry is'),
+ dict(name='override-validator-arguments-swapped', expect='flagged(custom/)',
+      edits=validator_shape(helper=sub(OVERRIDE_VALIDATOR, '(validationType ValidationType, validationAction ValidationAction)', '(validationType, validationAction string)').replace('== TypeIntegrity', '== string(TypeIntegrity)').replace('!= TypeRevocation', '!= string(TypeRevocation)').replace('== ActionSkip', '== string(ActionSkip)'),
+                            call=sub(NEW_OVERRIDE_RULES, '(validationType, validationAction)', '(string(validationAction), string(validationType))')),
+      why='parameters narrowed to strings and the call hands them in the wrong order: the rules are asked of (action, type)'),
+ dict(name='override-predicate-inverted', expect='flagged(custom/skip-only-revocation)',
+      edits=validator_shape(helper=OVERRIDE_PREDICATE, call=sub(NEW_OVERRIDE_RULES_PRED, 'if !skipAllowed(', 'if skipAllowed('))),
+ dict(name='override-predicate-always-true-for-log', expect='flagged(custom/skip-only-revocation)',
+      edits=validator_shape(helper=sub(OVERRIDE_PREDICATE, 'validationType != TypeRevocation {', 'validationType != TypeRevocation && validationType != TypeAuthenticTimestamp {'), call=NEW_OVERRIDE_RULES_PRED)),
+ dict(name='override-entry-validator-skips-action-membership', expect='flagged(custom/unsupported-action)',
+      edits=whole_entry_shape(helper=sub(WHOLE_ENTRY_VALIDATOR, '\tif validationAction == "" || !slices.Contains(ValidationActions, validationAction) {\n\t\treturn fmt.Errorf("verification action %q in custom signature verification is not supported, supported values are %q", validationAction, ValidationActions)\n\t}\n', ''))),
+ dict(name='override-entry-validator-allows-skip-everywhere', expect='flagged(custom/skip-only-revocation)',
+      edits=whole_entry_shape(helper=sub(WHOLE_ENTRY_VALIDATOR, '\tcase validationType != TypeRevocation && validationAction == ActionSkip:\n\t\treturn fmt.Errorf("%q verification can not be skipped in custom signature verification", validationType)\n', ''))),
+]
+
+# ---- third pass: "the plugin declares capability X" kept in a flag (held-out refactoring C02-1 of batch 3)
+OLD_CAPS_DECL = '\tvar pluginCapabilities []pluginframework.Capability\n\tverificationPluginName, err :='
+NEW_CAPS_DECL = '\tvar pluginCapabilities []pluginframework.Capability\n\tvar ownsIdentity, ownsRevocation bool\n\tverificationPluginName, err :='
+OLD_FILTER = '''		for _, capability := range metadata.Capabilities {
+			if capability == pluginframework.CapabilityRevocationCheckVerifier || capability == pluginframework.CapabilityTrustedIdentityVerifier {
+				pluginCapabilities = append(pluginCapabilities, capability)
+			}
+		}
+'''
+FLAG_FILTER_SWITCH = '''		for _, capability := range metadata.Capabilities {
+			switch capability {
+			case pluginframework.CapabilityTrustedIdentityVerifier:
+				ownsIdentity = true
+			case pluginframework.CapabilityRevocationCheckVerifier:
+				ownsRevocation = true
+			default:
+				continue
+			}
+			pluginCapabilities = append(pluginCapabilities, capability)
+		}
+'''
+FLAG_FILTER_IF = '''		for _, capability := range metadata.Capabilities {
+			if capability == pluginframework.CapabilityTrustedIdentityVerifier {
+				pluginCapabilities = append(pluginCapabilities, capability)
+				ownsIdentity = true
+			} else if capability == pluginframework.CapabilityRevocationCheckVerifier {
+				ownsRevocation = true
+				pluginCapabilities = append(pluginCapabilities, capability)
+			}
+		}
+'''
+FLAG_FILTER_INDEX = '''		for i := 0; i < len(metadata.Capabilities); i++ {
+			if metadata.Capabilities[i] != pluginframework.CapabilityRevocationCheckVerifier && metadata.Capabilities[i] != pluginframework.CapabilityTrustedIdentityVerifier {
+				continue
+			}
+			pluginCapabilities = append(pluginCapabilities, metadata.Capabilities[i])
+			if metadata.Capabilities[i] == pluginframework.CapabilityTrustedIdentityVerifier {
+				ownsIdentity = true
+			}
+			if metadata.Capabilities[i] == pluginframework.CapabilityRevocationCheckVerifier {
+				ownsRevocation = true
+			}
+		}
+'''
+FLAG_SCAN = OLD_FILTER + '''		for _, declared := range pluginCapabilities {
+			switch declared {
+			case pluginframework.CapabilityTrustedIdentityVerifier:
+				ownsIdentity = true
+			case pluginframework.CapabilityRevocationCheckVerifier:
+				ownsRevocation = true
+			}
+		}
+'''
+OLD_ID_GATE = '\tif !slices.Contains(pluginCapabilities, pluginframework.CapabilityTrustedIdentityVerifier) {\n'
+assert _SRC_V.count(OLD_ID_GATE) == 1
+def flag_shape(loop=FLAG_FILTER_SWITCH, more=()):
+    return [(V, OLD_CAPS_DECL, NEW_CAPS_DECL), (V, OLD_FILTER, loop), (V, OLD_ID_GATE, '\tif !ownsIdentity {\n'),
+            (V, NATIVE_REV_GATE, '!ownsRevocation {\n')] + list(more)
+
+VARIANTS += [
+ dict(name='benign-capability-flags-set-in-filter-switch', expect='silent', edits=flag_shape(),
+      why='the filter loop is a switch that also records ownsIdentity / ownsRevocation; the two later slices.Contains scans read the flags (third batch C02-1)'),
+ dict(name='benign-capability-flags-set-in-filter-if-chain', expect='silent', edits=flag_shape(loop=FLAG_FILTER_IF),
+      why='same, if / else-if with an append per branch, flag set before or after the append'),
+ dict(name='benign-capability-flags-set-in-index-loop', expect='silent', edits=flag_shape(loop=FLAG_FILTER_INDEX),
+      why='same, index loop, guard clause, flags set behind the append'),
+ dict(name='benign-capability-flags-by-scan-of-declared-list', expect='silent', edits=flag_shape(loop=FLAG_SCAN),
+      why='the flags are computed by one scan of the declared list after it was built'),
+ dict(name='benign-only-identity-answer-kept-in-flag', expect='silent',
+      edits=[(V, OLD_CAPS_DECL, sub(NEW_CAPS_DECL, 'ownsIdentity, ownsRevocation', 'ownsIdentity')), (V, OLD_FILTER, sub(FLAG_FILTER_SWITCH, '\t\t\t\townsRevocation = true\n', '')), (V, OLD_ID_GATE, '\tif !ownsIdentity {\n')],
+      why='mixed: identity by flag, revocation still by slices.Contains'),
+ dict(name='capability-flags-swapped', expect='flagged(routing/)',
+      edits=flag_shape(loop=FLAG_FILTER_SWITCH.replace('ownsIdentity = true', 'ownsX = true').replace('ownsRevocation = true', 'ownsIdentity = true').replace('ownsX = true', 'ownsRevocation = true')),
+      why='a plugin that declares only revocation switches the native identity check off'),
+ dict(name='capability-flag-set-but-capability-not-declared', expect='flagged(routing/identity)',
+      edits=flag_shape(loop=sub(FLAG_FILTER_SWITCH, '\t\t\t\townsIdentity = true\n', '\t\t\t\townsIdentity = true\n\t\t\t\tcontinue\n')),
+      why='the flag is set but the capability is not put on the declared list: the native check is off and the plugin is never asked'),
+ dict(name='capability-flag-set-for-every-capability', expect='flagged(routing/revocation)',
+      edits=flag_shape(loop=sub(FLAG_FILTER_SWITCH, '\t\t\tswitch capability {\n', '\t\t\townsRevocation = true\n\t\t\tswitch capability {\n')),
+      why='any declared capability switches native revocation off'),
+ dict(name='capability-flag-set-outside-the-loop', expect='flagged(routing/revocation)',
+      edits=flag_shape(more=[(V, '\t\tif len(pluginCapabilities) == 0 {\n', '\t\tif pluginConfig != nil {\n\t\t\townsRevocation = true\n\t\t}\n\t\tif len(pluginCapabilities) == 0 {\n')]),
+      why='a plugin configuration switches native revocation off'),
+ dict(name='capability-flag-cleared-after-the-loop', expect='flagged(routing/identity)',
+      edits=flag_shape(more=[(V, '\t\tif len(pluginCapabilities) == 0 {\n', '\t\tif pluginConfig != nil {\n\t\t\townsIdentity = false\n\t\t}\n\t\tif len(pluginCapabilities) == 0 {\n')]),
+      why='the flag no longer says what is on the declared list (native check and plugin both run)'),
+ dict(name='capability-flag-never-set', expect='flagged(routing/revocation)',
+      edits=flag_shape(loop=sub(FLAG_FILTER_SWITCH, '\t\t\t\townsRevocation = true\n', '')),
+      why='native revocation runs although the plugin owns it'),
+ dict(name='capability-flag-gate-dropped', expect='flagged(routing/identity)',
+      edits=flag_shape(more=[(V, '\tif !ownsIdentity {\n', '\tif !ownsIdentity || pluginConfig != nil {\n')])),
+ dict(name='capability-flag-gate-inverted', expect='flagged(routing/identity)',
+      edits=flag_shape(more=[(V, '\tif !ownsIdentity {\n', '\tif ownsIdentity {\n')])),
+ dict(name='capability-flags-scan-stops-early', expect='flagged(routing/)',
+      edits=flag_shape(loop=sub(FLAG_SCAN, '\t\t\t\townsRevocation = true\n\t\t\t}\n', '\t\t\t\townsRevocation = true\n\t\t\t}\n\t\t\tif !ownsIdentity {\n\t\t\t\tbreak\n\t\t\t}\n')),
+      why='the scan of the declared list gives up after the first element'),
+ dict(name='capability-flags-scan-of-another-list', expect='flagged(routing/)',
+      edits=flag_shape(loop=sub(FLAG_SCAN, 'for _, declared := range pluginCapabilities {', 'for _, declared := range metadata.Capabilities[:1] {')),
+      why='the flags are computed from a list that is not the declared one'),
+ dict(name='capability-flags-filter-keeps-every-capability', expect='flagged(routing/declared-capabilities)',
+      edits=flag_shape(loop=sub(FLAG_FILTER_SWITCH, '\t\t\tdefault:\n\t\t\t\tcontinue\n', '')),
+      why='flag shape, the declared list is no longer filtered to the two verification capabilities'),
+]
+
+# the flags computed by the lookup helper and handed back as results
+FLAG_FILTER_HELPER = '''	var pluginCapabilities []pluginframework.Capability
+	var ownsIdentity, ownsRevocation bool
+	for _, capability := range metadata.Capabilities {
+		switch capability {
+		case pluginframework.CapabilityTrustedIdentityVerifier:
+			ownsIdentity = true
+		case pluginframework.CapabilityRevocationCheckVerifier:
+			ownsRevocation = true
+		default:
+			continue
+		}
+		pluginCapabilities = append(pluginCapabilities, capability)
+	}
+'''
+def flag_lookup_helper(ret='pluginCapabilities, ownsIdentity, ownsRevocation, nil', unnamed='return "", nil, nil, false, false, nil\n'):
+    h = sub(LOOKUP_HELPER, '(string, pluginframework.VerifyPlugin, []pluginframework.Capability, error) {', '(string, pluginframework.VerifyPlugin, []pluginframework.Capability, bool, bool, error) {')
+    h = sub(h, FILTER_LOOP, FLAG_FILTER_HELPER)
+    h = h.replace('return "", nil, nil, ', 'return "", nil, nil, false, false, ')
+    h = sub(h, 'return "", nil, nil, false, false, nil\n', unnamed)
+    return sub(h, 'return verificationPluginName, installedPlugin, pluginCapabilities, nil', 'return verificationPluginName, installedPlugin, ' + ret)
+FLAG_LOOKUP_CALL = sub(NEW_LOOKUP_CALL, 'installedPlugin, pluginCapabilities, err :=', 'installedPlugin, pluginCapabilities, ownsIdentity, ownsRevocation, err :=')
+def flag_lookup_shape(helper=None, more=()):
+    return lookup_shape(helper=helper or flag_lookup_helper(), call=FLAG_LOOKUP_CALL,
+                        more=[(V, OLD_ID_GATE, '\tif !ownsIdentity {\n'), (V, NATIVE_REV_GATE, '!ownsRevocation {\n')] + list(more))
+
+VARIANTS += [
+ dict(name='benign-capability-flags-handed-back-by-lookup-helper', expect='silent', edits=flag_lookup_shape(),
+      why='lookup helper + flags: the helper sets the flags in its filter loop and returns them next to the list'),
+ dict(name='lookup-helper-hands-back-flags-swapped', expect='flagged(routing/)',
+      edits=flag_lookup_shape(helper=flag_lookup_helper(ret='pluginCapabilities, ownsRevocation, ownsIdentity, nil'))),
+ dict(name='lookup-helper-claims-revocation-without-plugin', expect='flagged(routing/revocation)',
+      edits=flag_lookup_shape(helper=flag_lookup_helper(unnamed='return "", nil, nil, false, true, nil\n')),
+      why='without a plugin named the helper answers "the plugin checks revocation": native revocation is skipped for every plain signature'),
+]
+
+# ---- third pass: the override loop / the store / the whole custom level in a helper of GetVerificationLevel
+APPLY_HELPER = ('func applyOverrides(enforcement map[ValidationType]ValidationAction, overrides map[ValidationType]ValidationAction) error {\n' +
+    OLD_OVERRIDE_LOOP.replace('range signatureVerification.Override {', 'range overrides {').replace('return nil, fmt.Errorf(', 'return fmt.Errorf(').replace('customVerificationLevel.Enforcement[validationType] = validationAction', 'enforcement[validationType] = validationAction') +
+    '\treturn nil\n}\n\n')
+assert APPLY_HELPER.count('return fmt.Errorf(') == 4
+APPLY_CALL = '''	if err := applyOverrides(customVerificationLevel.Enforcement, signatureVerification.Override); err != nil {
+		return nil, err
+	}
+'''
+def apply_shape(helper=APPLY_HELPER, call=APPLY_CALL, more=()):
+    return [(T, OLD_OVERRIDE_LOOP, call), (T, T_ANCHOR, helper + T_ANCHOR)] + list(more)
+
+_c = _SRC_T.index('\tcustomVerificationLevel := &VerificationLevel{\n')
+OLD_CUSTOM_TAIL = _SRC_T[_c:_b] + '\treturn customVerificationLevel, nil\n'
+assert _SRC_T.count(OLD_CUSTOM_TAIL) == 1
+CUSTOM_CTOR = ('func newCustomLevel(baseLevel *VerificationLevel, overrides map[ValidationType]ValidationAction) (*VerificationLevel, error) {\n' +
+    OLD_CUSTOM_TAIL.replace('range signatureVerification.Override {', 'range overrides {') + '}\n\n')
+def ctor_level_shape(ctor=CUSTOM_CTOR, call='\treturn newCustomLevel(baseLevel, signatureVerification.Override)\n', more=()):
+    return [(T, OLD_CUSTOM_TAIL, call), (T, T_ANCHOR, ctor + T_ANCHOR)] + list(more)
+SKIP_BASE_GATE = '''	if baseLevel == LevelSkip {
+		return nil, fmt.Errorf("signature verification level %q can't be used to customize signature verification", baseLevel.Name)
+	}
+'''
+PUT_HELPER = 'func putAction(enforcement map[ValidationType]ValidationAction, validationType ValidationType, validationAction ValidationAction) {\n\tenforcement[validationType] = validationAction\n}\n\n'
+
+VARIANTS += [
+ dict(name='benign-overrides-applied-by-helper', expect='silent', edits=apply_shape(),
+      why='the loop over the overrides (lookups, rules, store) moved into applyOverrides(freshMap, overrides) error'),
+ dict(name='benign-overrides-applied-by-helper-rules-in-validator', expect='silent',
+      edits=apply_shape(helper=sub(APPLY_HELPER, OLD_OVERRIDE_RULES.replace('return nil, fmt.Errorf(', 'return fmt.Errorf('), NEW_OVERRIDE_RULES.replace('return nil, err', 'return err')) + OVERRIDE_VALIDATOR),
+      why='two levels: applyOverrides asks checkOverride'),
+ dict(name='benign-custom-level-built-by-constructor', expect='silent', edits=ctor_level_shape(),
+      why='everything behind the skip test moved into newCustomLevel(base, overrides) (*VerificationLevel, error); GetVerificationLevel returns its answer'),
+ dict(name='benign-override-stored-by-setter', expect='silent',
+      edits=[(T, '\t\tcustomVerificationLevel.Enforcement[validationType] = validationAction\n', '\t\tputAction(customVerificationLevel.Enforcement, validationType, validationAction)\n'), (T, T_ANCHOR, PUT_HELPER + T_ANCHOR)],
+      why='only the store is a helper: the gates are on the way to its call site'),
+ dict(name='benign-override-entry-found-by-library-search', expect='silent',
+      edits=whole_entry_shape(helper=WHOLE_ENTRY_VALIDATOR.replace('validationType == "" || ', '').replace('validationAction == "" || ', '')),
+      why='supported type / action decided by slices.Contains on the tables of supported values alone'),
+ dict(name='overrides-helper-allows-skip-for-expiry', expect='flagged(custom/skip-only-revocation)',
+      edits=apply_shape(helper=sub(APPLY_HELPER, '} else if validationType != TypeRevocation && validationAction == ActionSkip {', '} else if validationType != TypeRevocation && validationType != TypeExpiry && validationAction == ActionSkip {'))),
+ dict(name='overrides-helper-integrity-rule-dropped', expect='flagged(custom/integrity)',
+      edits=apply_shape(helper=sub(APPLY_HELPER, '\t\tif validationType == TypeIntegrity {\n\t\t\treturn fmt.Errorf("%q verification can not be overridden in custom signature verification", key)\n\t\t} else if', '\t\tif'))),
+ dict(name='overrides-helper-writes-shared-map', expect='flagged(custom/fresh-map)',
+      edits=apply_shape(call=sub(APPLY_CALL, 'applyOverrides(customVerificationLevel.Enforcement,', 'applyOverrides(baseLevel.Enforcement,'))),
+ dict(name='custom-level-constructor-from-skip', expect='flagged(custom/skip-base)',
+      edits=ctor_level_shape(more=[(T, SKIP_BASE_GATE, '')]),
+      why='constructor shape, the test that the base level is not skip is gone'),
+ dict(name='custom-level-constructor-allows-any-skip', expect='flagged(custom/skip-only-revocation)',
+      edits=ctor_level_shape(ctor=sub(CUSTOM_CTOR, '} else if validationType != TypeRevocation && validationAction == ActionSkip {', '} else if validationType == TypeAuthenticity && validationAction == ActionSkip {'))),
+ dict(name='override-setter-called-before-the-rules', expect='flagged(custom/)',
+      edits=[(T, '\t\tcustomVerificationLevel.Enforcement[validationType] = validationAction\n', ''), (T, OLD_OVERRIDE_RULES, '\t\tputAction(customVerificationLevel.Enforcement, validationType, validationAction)\n' + OLD_OVERRIDE_RULES), (T, T_ANCHOR, PUT_HELPER + T_ANCHOR)],
+      why='the setter is called before the integrity / skip rules: the store is no longer gated by them'),
+]
+
+# the two answers computed once, by slices.Contains, where the declared list is complete (inside the "plugin named" block)
+ANSWERS_ONCE = '''		ownsIdentity = slices.Contains(pluginCapabilities, pluginframework.CapabilityTrustedIdentityVerifier)
+		ownsRevocation = slices.Contains(pluginCapabilities, pluginframework.CapabilityRevocationCheckVerifier)
+		if len(pluginCapabilities) == 0 {
+'''
+def once_shape(answers=ANSWERS_ONCE, more=()):
+    return [(V, OLD_CAPS_DECL, NEW_CAPS_DECL), (V, '\t\tif len(pluginCapabilities) == 0 {\n', answers), (V, OLD_ID_GATE, '\tif !ownsIdentity {\n'),
+            (V, NATIVE_REV_GATE, '!ownsRevocation {\n')] + list(more)
+VARIANTS += [
+ dict(name='benign-ownership-answers-computed-once-by-contains', expect='silent', edits=once_shape(),
+      why='var ownsIdentity, ownsRevocation bool; inside the plugin block: owns… = slices.Contains(pluginCapabilities, …); the gates read the locals'),
+ dict(name='ownership-answers-computed-once-from-raw-metadata', expect='flagged(routing/)',
+      edits=once_shape(answers=ANSWERS_ONCE.replace('slices.Contains(pluginCapabilities, pluginframework.CapabilityRevocationCheckVerifier)', 'slices.Contains(metadata.Capabilities[:0], pluginframework.CapabilityRevocationCheckVerifier)')),
+      why='one answer is asked of another list'),
+ dict(name='ownership-answers-computed-once-constants-swapped', expect='flagged(routing/)',
+      edits=once_shape(answers=ANSWERS_ONCE.replace('CapabilityTrustedIdentityVerifier)', 'CapabilityX)').replace('CapabilityRevocationCheckVerifier)', 'CapabilityTrustedIdentityVerifier)').replace('CapabilityX)', 'CapabilityRevocationCheckVerifier)'))),
+]
